@@ -45,29 +45,35 @@ def build_phase(need_gen=False):
     return c
 
 
-def run_driver(exe, text, tag, timeout=600):
+def run_driver(exe, text, tag, timeout=600, extra_args=(), pre_args=()):
     d = os.path.join(BUILD, 'cases')
     os.makedirs(d, exist_ok=True)
     p = os.path.join(d, '%s-%d.txt' % (tag, os.getpid()))
     with open(p, 'w') as f:
         f.write(text)
-    cmd = [exe, p]
+    cmd = [exe] + list(pre_args) + [p] + list(extra_args)
     if os.path.dirname(exe).endswith('ocaml'):      # extracted list functions are not tail-recursive
-        cmd = ['bash', '-c', 'ulimit -s unlimited 2>/dev/null || ulimit -s 1000000; exec "$0" "$1"', exe, p]
+        cmd = ['bash', '-c', 'ulimit -s unlimited 2>/dev/null || ulimit -s 1000000; exec "$0" "$@"', exe, p] + list(extra_args)
     rc, out, err = sh(cmd, timeout=timeout,
                       env={'ASAN_OPTIONS': 'detect_leaks=1:abort_on_error=0:allocator_may_return_null=1',
-                           'UBSAN_OPTIONS': 'print_stacktrace=1'})
+                           'UBSAN_OPTIONS': 'print_stacktrace=1', 'TSAN_OPTIONS': 'halt_on_error=0:exitcode=66'})
     os.remove(p)
     return rc, out.splitlines(), err
 
 
 # ---------------------------------------------------------------- ties
-def leaf_tie(run, ctx, seed, scale):
-    """translation validation of the leaf layer: extracted regenerated Gallina vs the C functions"""
+def leaf_tie(run, ctx, seed, scale, be=False):
+    """translation validation of the leaf layer: extracted regenerated Gallina vs the C functions
+    (be: both sides with -DWORDS_BIGENDIAN, i.e. the portable byte-by-byte code)"""
     cases = leafgen.cases(seed, scale)
     text = '\n'.join(cases) + '\n'
-    rc1, c_out, c_err = run_driver(ctx.leaf_c, text, 'leaf')
-    rc2, m_out, m_err = run_driver(ctx.leaf_model, text, 'leafm')
+    leaf_c = ctx.leaf_c
+    if be:
+        leaf_c, e = common.build_c('leaf_driver_be', os.path.join(ROOT, 'harness', 'c', 'leaf_driver.c'), ['-DWORDS_BIGENDIAN'])
+        if e:
+            return {'cases': 0, 'disagreements': 1, 'replay': run.replay('leaf_be_build.txt', e)}
+    rc1, c_out, c_err = run_driver(leaf_c, text, 'leaf')
+    rc2, m_out, m_err = run_driver(ctx.leaf_model, text, 'leafm', extra_args=['be'] if be else [])
     bad = common.diff_lines(c_out, m_out)
     info = {'cases': len(cases), 'disagreements': len(bad)}
     if rc1 != 0 or bad:
@@ -334,7 +340,129 @@ def check_C02(tier, seed):
     return conclude(run, gate, obl)
 
 
-CHECKS = {'C18': check_C18, 'C02': check_C02}
+def check_C14(tier, seed):
+    run = Run('C14', tier, seed)
+    ctx = build_phase()
+    gate, obl = gate_and_ties(run, ctx, 'C14', seed, tier)
+    # field lookups through the public parser entry point on random descriptors (sparse / dense / huge ids)
+    rnd = random.Random(seed * 1000003 + 14)
+    st = Stats()
+    envs = envs_for(rnd, tier, 10, 80, big_every=3)
+    run_corr_streams(run, ctx, rnd, envs, 30 if tier == 'quick' else 80, st,
+                     [lambda r, e, s, n: stream_unpack(r, e, s, n)], 'lookup')
+    li = run.cov.get('leaf_tie', {})
+    finish_stats(run, st, 'int_range_lookup: boundary-dense range tables incl. INT32_MIN/INT32_MAX x keys (present, +-1, extremes, random) in the '
+                          'leaf tie (%s cases); field-number lookup exercised through unpack on random descriptors with sparse, dense and '
+                          'huge ids (every key on the wire is one lookup); distinct = distinct case lines' % li.get('cases'))
+    run.notes.append('name lookups (strcmp binary search) and enum/service descriptors: covered by the generator tie, see C13/C20')
+    return conclude(run, gate, obl)
+
+
+C16_VARIANTS = [
+    ('bigendian', ['-DWORDS_BIGENDIAN'], True, 'gcc'),
+    ('ndebug', ['-DNDEBUG'], True, 'gcc'),
+    ('O0', ['-O0'], True, 'gcc'),
+    ('O2-nosan', ['-O2'], False, 'gcc'),
+    ('clang-O2', ['-O2'], False, 'clang'),
+]
+
+
+def canon_chunks(lines):
+    """the number of append calls is not observable behaviour of the wire format: join pack_to_buffer chunks"""
+    out = []
+    for l in lines:
+        t = l.split(' ')
+        if t[0] == 'P' and len(t) >= 7 and t[6].isdigit():
+            t = t[:6] + [''.join(c for c in t[7:] if c != '-') or '-']
+            l = ' '.join(t)
+        out.append(l)
+    return out
+
+
+def check_C16(tier, seed):
+    run = Run('C16', tier, seed)
+    ctx = build_phase()
+    gate, obl = gate_and_ties(run, ctx, 'C16', seed, tier)
+    info = leaf_tie(run, ctx, seed, 1 if tier == 'quick' else 3, be=True)
+    run.cov['leaf_tie_bigendian'] = info
+    if info.get('disagreements') or 'replay' in info:
+        run.violation(info.get('replay'), False)
+    rnd = random.Random(seed * 1000003 + 16)
+    st = Stats()
+    envs = envs_for(rnd, tier, 6, 40)
+    per_env = 25 if tier == 'quick' else 80
+    variants = []
+    for name, flags, san, cc in C16_VARIANTS:
+        exe, e = common.build_c('impl_' + name, os.path.join(ROOT, 'harness', 'c', 'impl_driver.c'), flags, san, cc)
+        if e:
+            run.violation(run.replay('build-%s.txt' % name, e), True)
+        else:
+            variants.append((name, exe))
+    nmis = 0
+    for env in envs:
+        st.schemas += 1
+        lines, _ = stream_pack(rnd, env, st, per_env, canon=False)
+        lines += stream_unpack(rnd, env, st, per_env, op='RT')
+        text = env.text() + '\n'.join(lines) + '\n'
+        rc0, ref_out, ref_err = run_driver(ctx.impl, text, 'c16ref')
+        rcm, m_out, m_err = run_driver(ctx.model, text, 'c16m')
+        for name, exe in [('default', ctx.impl)] + variants:
+            if name == 'default':
+                out, err = ref_out, ref_err
+            else:
+                rc, out, err = run_driver(exe, text, 'c16' + name)
+            bad = common.diff_lines(canon_chunks(out), canon_chunks(m_out))
+            if bad or len(out) != len(lines):
+                nmis += 1
+                if len(run.violations) < 3:
+                    run.violation(report_disagreement(run, env.text(), lines, out, m_out, bad, err,
+                                                      'build variant "%s" disagrees with the model (and hence with the other builds)' % name), False)
+    run.cov['build_variants'] = ['default'] + [v[0] for v in variants]
+    finish_stats(run, st, 'the PACK and RT (unpack/check/size/pack/stream/reparse) case streams run against builds {default, -DWORDS_BIGENDIAN, '
+                          '-DNDEBUG, -O0, -O2, clang}; every build must print what the extracted model prints; distinct = distinct case lines')
+    return conclude(run, gate, obl)
+
+
+def check_C17(tier, seed):
+    run = Run('C17', tier, seed)
+    ctx = build_phase()
+    gate, obl = gate_and_ties(run, ctx, 'C17', seed, tier, need_leaf=False)
+    exe, e = common.build_c('impl_tsan', os.path.join(ROOT, 'harness', 'c', 'impl_driver.c'),
+                            ['-fsanitize=thread', '-lpthread'], san=False)
+    rnd = random.Random(seed * 1000003 + 17)
+    st = Stats()
+    if e:
+        run.violation(run.replay('build-tsan.txt', e), True)
+    else:
+        envs = envs_for(rnd, tier, 6, 40)
+        per_env = 40 if tier == 'quick' else 150
+        nthreads = 8
+        for env in envs:
+            st.schemas += 1
+            lines, _ = stream_pack(rnd, env, st, per_env, canon=False)
+            lines += stream_unpack(rnd, env, st, per_env, op='RT')
+            lines += ['UNPACKA %s -' % l.split(' ', 1)[1] for l in stream_unpack(rnd, env, Stats(), per_env // 2)]
+            text = env.text() + '\n'.join(lines) + '\n'
+            rc0, seq_out, seq_err = run_driver(ctx.impl, text, 'c17seq')
+            rc1, mt_out, mt_err = run_driver(exe, text, 'c17mt', pre_args=['-j', str(nthreads)])
+            races = mt_err.count('WARNING: ThreadSanitizer')
+            bad = common.diff_lines(seq_out, mt_out)
+            if races or bad or rc1 not in (0,):
+                if len(run.violations) < 3:
+                    rp = run.replay('tsan-%d.txt' % len(run.violations),
+                                    'threads=%d; ThreadSanitizer reports: %d; lines differing from the sequential run: %s\n'
+                                    '--- schema + cases\n%s\n--- TSan output (tail)\n%s\n' %
+                                    (nthreads, races, bad[:5], text[:20000], mt_err[-6000:]))
+                    run.violation(rp, False)
+        run.cov['threads'] = nthreads
+    finish_stats(run, st, '%d threads run disjoint case streams (PACK, RT, allocator-instrumented unpack) against one shared set of descriptors '
+                          'and the default allocator under ThreadSanitizer; per-line output must equal the sequential run and TSan must be silent; '
+                          'distinct = distinct case lines' % 8)
+    run.assumptions = ['the footprint of the compiled code (reads shared descriptors/defaults, writes only caller-owned memory) is observed by TSan, not proved']
+    return conclude(run, gate, obl)
+
+
+CHECKS = {'C18': check_C18, 'C02': check_C02, 'C14': check_C14, 'C16': check_C16, 'C17': check_C17}
 
 
 def main():
